@@ -30,6 +30,29 @@ missed = {"C18-A": "pod lists had at most 7 pods (name sort needs >= 11)", "C18-
           "C05-D": "caught by C10 after targets sharing scheme/host/path were added there; over the wire the early release again looks like correct behaviour of the coordinator (the sidecar reports a stale counter)",
           "C01-C": "not a C01 matter: the posted lists are correct, the target is lost through a scale request that removes a shard in use, which is C07's clause and caught there",
           "C05-B": "still not caught by C05 itself: over the coordinator<->sidecar I/O the early release is indistinguishable from the duplicate rule; the root cause (sidecar keeps a stale in_transfer state) is caught by C10"}
+missed.update({
+    "C01-F": "a nil dereference in an errgroup goroutine of the coordinator kills the worker process; the driver reported that as inconclusive (crash attribution added)",
+    "C02-E": "no configured param had an empty first value",
+    "C02-F": "the proxy was only driven through ServeHTTP, never through Proxy.Run's listener (listener units under C02 and C12 added)",
+    "C03-F": "never more than a handful of targets were asked for at once (flood units under C20 and C03 added)",
+    "C04-F": "a shard's two runtime-info answers within one cycle were always identical (heavier second report added)",
+    "C08-E": "scripted shards replaced Shard.APIGet/APIPost, so pkg/api never ran (wire mode added)",
+    "C08-F": "cycle scenarios use a stub for the coordinator's configuration (refused-reload unit with the real ConfigManager added, under C16 and C08)",
+    "C09-E": "label values stayed inside the BMP's printable range",
+    "C09-F": "the TargetsManager had no update callbacks: what the injector does to the assignment it is handed never reached the store",
+    "C10-F": "as C09-F, and every target had an address",
+    "C11-F": "the injector was called directly instead of through the sidecar's HTTP API",
+    "C12-F": "scrape_timeout was always 10s and the in-memory transport ignored the request deadline",
+    "C14-E": "failed scrapes were refused connections or 503s, never a 2xx other than 200 with a well-formed payload",
+    "C15-E": "no explorer was running next to the discovery, so nobody wrote through the shared configuration",
+    "C15-F": "the instance label was either always defaulted or never; descriptions compared label slices, not label sets",
+    "C16-E": "no document started with indentation, so trimming the pushed text was harmless",
+    "C16-F": "hashes and sync reporting were judged, the credentials actually presented by the reloaded scrape clients were not",
+    "C17-E": "job names never differed in letter case only",
+    "C18-E": "pod lists were shuffled, ordinal or reversed, never in lexicographic name order with >= 11 pods",
+    "C18-F": "the kubernetes package was tested on its own; the coordinator's handling of an empty Replicas() list after a good cycle was not (coordinator-on-kubernetes unit added)",
+    "C19-E": "as C18-F: several StatefulSets with different readiness were never listed through the real ReplicasManager",
+})
 for f in sorted(glob.glob(os.path.join(os.path.dirname(__file__), "..", "seeded", "*", "meta.json"))):
     m = json.load(open(f))
     rd = open(os.path.join(os.path.dirname(f), "README.md")).read().strip().splitlines()
